@@ -5,14 +5,14 @@ import subprocess
 PROPS = [json.loads(l) for l in open("/verif/properties.jsonl")]
 
 CHECKS = {
-    "C01": dict(ref="6/C01", tech="TLA+ spec (Dispatch/Yomm2) + TLC: oracle theorems on bounded universes; TLC-generated registries and seeded random registries replayed on the real library under 16 policy configurations, traces validated by TLC (TraceYomm2)",
-                text="Every registry of the bounded universes (all reduced inheritance graphs over <=4 classes x method tuples x <=3 definitions, arity 1..3; thorough: <=5 classes, arity 4) is executed on the real library under every eager policy configuration through resolve() and operator(), with every signature shape of the pool; TLC decides every recorded outcome against Outcome(). Exhaustive within the constants, sampled beyond (random lattices up to 12 classes).",
+    "C01": dict(ref="6/C01", tech="TLA+ spec (Dispatch/Yomm2) + TLC: oracle theorems on bounded universes; TLC-generated registries and seeded random registries replayed on the real library under 19 policy configurations, traces validated by TLC (TraceYomm2); TLAPS proof of the oracle lemmas (DispatchProofs.tla, 13 obligations)",
+                text="Every registry of the bounded universes (all reduced inheritance graphs over <=4 classes x method tuples x <=3 definitions, arity 1..3; thorough: <=5 classes, arity 4) is executed on the real library under every eager policy configuration through resolve() and operator(), with every signature shape of the pool; TLC decides every recorded outcome against Outcome(). Exhaustive within the constants, sampled beyond (random lattices up to 12 classes; the 5-class lattice on which MoreSpecific is not transitive with every definition set); a sample is re-run with the library's trace output switched on (YOMM2_TRACE) under the debug-derived policies.",
                 note="trusts TLC and the hand-built registration records of the dyn harness; the template front end (macros, thunks) is covered by the gen checks"),
     "C02": dict(ref="6/C02", tech="TLC trace validation of error records and of the abort protocol against Yomm2.tla (Call action: err/thrown/aborted, TDied, TEnd)",
-                text="Same universes as C01; every erroring tuple's error record (status, arity, types of the virtual arguments in order) is compared with ErrorRecord under the three error-handling facets; after thrown errors the tables are re-validated; sampled calls under a returning handler must end in SIGABRT with no further event.",
+                text="Same universes as C01; every erroring tuple's error record (status, arity, types of the virtual arguments in order) is compared with ErrorRecord under the three error-handling facets; after thrown errors the tables are re-validated; sampled calls under a returning handler must end in SIGABRT with no further event. Programs with real class hierarchies (virtual inheritance, abstract classes, non-virtual / pointer / virtual_ptr parameters) registered through the macros report their error records through set_error_handler and are validated the same way.",
                 note="handler-returns runs are sampled (registry, tuple) pairs, not exhaustive"),
     "C03": dict(ref="6/C03", tech="TLC trace validation of next slots against NextTarget (Dispatch.tla), including add/remove/update histories",
-                text="For every definition of every registry of the bounded universes, the next slot is observed after update by pointer identity and by calling through it; histories that add and remove definitions between updates re-observe every slot.",
+                text="For every definition of every registry of the bounded universes, the next slot is observed after update by pointer identity and by calling through it; histories that add and remove definitions between updates re-observe every slot; programs with real class hierarchies call `next` from inside definitions made with define_method and are validated against the same oracle.",
                 note="as C01"),
     "C06": dict(ref="6/C06", tech="TLC trace validation of permuted registrations against the order-free oracle; TLC exhibits non-transitivity of MoreSpecific on the 5-class lattice and every definition set/order there is replayed",
                 text="Registration orders (class records, methods, definitions) are shuffled; every order's outcome tables and next targets must equal the order-free oracle, hence agree with each other. Exhaustive over all definition orders on the D2 lattice (2,626 definition sets x up to 6 orders), sampled orders elsewhere.",
@@ -25,7 +25,7 @@ CHECKS = {
                 note="real 64-bit arithmetic is not modelled in TLC; it is covered by contract validation of recorded executions"),
     "C07": dict(ref="6/C07", tech="TLC on Yomm2MC (histories over pools; FreshEquivalence, TypeOK) generating every history up to the bound and random simulations; histories replayed on the real library, every post-update observation validated by TLC against the oracle on the current catalogs",
                 text="Every history of <=5 operations (thorough: 6) over a pool of class records, methods and definitions, TLC-simulated histories of 15 operations and guided random histories of up to 60 operations on random registries are replayed under eager custom, std, projected and deferred type ids, with and without hash; after every update (and after a second, change-free update) all outcome tables and next slots must equal the oracle evaluated on the catalogs as they are then.",
-                note="registration objects' destructors are replaced by direct catalog removal; the dlopen/dlclose scenario is not built"),
+                note="registration objects' destructors are replaced by direct catalog removal; the dlopen/dlclose scenario is built with two plugins (classes, methods, definitions and registrations coming and going with dlclose)"),
     "C09": dict(ref="6/C09", tech="TLC on VptrMC.tla (handle validity across updates, direct vs indirect) + random handle scripts replayed on the real virtual_ptr / virtual_shared_ptr code under 13 policies, every call through handles validated by TLC against the oracle for the pointees",
                 text="Handles are built by every construction route (exact static type, base reference, final, shared_ptr lvalue / rvalue / most-derived, make_virtual_shared), copied, moved, converted, cast, read back through get / * / ->, and used as arguments of methods taking virtual_ptr, const virtual_ptr& and virtual_shared_ptr, before and after updates that move slots; indirect handles are used after the update, direct ones are not (the specification's validity rule).",
                 note="static types of handles are nodes of a 4-class C++ chain with run-time static ids; std-RTTI and projected policies are not bound for handle scripts"),
@@ -39,7 +39,7 @@ CHECKS = {
                 text="Every interleaved history of <=4 operations over two policies and guided random histories over 2-3 policies sharing class ids: after every single operation all policies' outcome tables and next slots are re-observed and must still match their own catalogs; handler isolation is exercised with a returning handler on one policy only.",
                 note="hash parameters and vptr validity are observed through dispatch results, not compared directly"),
     "C08": dict(ref="6/C08", tech="TLC: PresentationInvariant over every legal presentation (GenLat.tla) and CellsDisjoint (CompilerSlots.tla); every presentation of every graph <=4 classes (thorough: 5) replayed on the real library, tables/next/layout validated by TLC against the closure of the listed relation",
-                text="All 1,088 (graph, listed-bases) presentations over <=4 classes (thorough: 32,768 over 5), each also split over several records, duplicated and reordered, with a probe method on every class and a random multi-method: outcome tables over all acceptable tuples, next targets and slot layout must be those of the closure of the listed relation.",
+                text="All 1,088 (graph, listed-bases) presentations over <=4 classes (thorough: 32,768 over 5), each also split over several records, duplicated and reordered, with a probe method on every class and a random multi-method: outcome tables over all acceptable tuples, next targets and slot layout must be those of the closure of the listed relation. Real class hierarchies registered by several register_classes statements are run as compiled programs and validated the same way.",
                 note="record splitting / duplication / ordering is randomized per presentation, not exhaustive"),
     "C18": dict(ref="6/C18", tech="TLC on StaticList.tla (pointer-level transcription of push_back / remove / clear; refinement to a sequence; complete state space over 6 nodes under a VIEW hiding the history) + every operation sequence up to the bound replayed on the real static_list and on the library's registration objects, validated by TLC (TraceStaticList.tla)",
                 text="The refinement invariants hold on the complete reachable state space for 6 nodes (any history length). Every sequence of <=6 operations over 3 nodes (thorough: <=7 over 4, 78,125 sequences) and random sequences of 50..3000 operations over 8 nodes are executed on an instrumented node type (links compared) and on class_declaration / method / definition_info objects with constructor- and destructor-driven registration; iteration order, size(), empty() after every operation must equal the specification.",
@@ -47,15 +47,15 @@ CHECKS = {
     "C19": dict(ref="6/C19", tech="TLC on FwdDecl.tla (character-level transcription of write_forward_declarations checked against a stack acceptor on every name set of the universe; broken-writer negative control) + TLC-emitted and random name sets and grammar-generated type descriptions passed to the real generator, output tokenised and validated by TLC (TraceFwd.tla)",
                 text="Every set of <=3 qualified names over 39 names built from identifiers a, ab, b at <=3 namespace levels (9,920 sets; thorough also <=4 names and 5 identifiers on the model), random sets of up to 40 names of depth <=6, and type descriptions from a grammar of class names, fundamental types, pointers, references, templates, function types, std:: and yorel:: entities: the written text must be balanced and declare exactly the requested / generated class names, each once, in its namespace.",
                 note="cv-qualifiers and '(anonymous namespace)' are outside the stated grammar and not generated; compiling the output is not part of the quick check"),
-    "C11": dict(ref="6/C11", tech="TLC enumerates the program family of Args.tla (630 scenarios: parameter kind x inheritance shape x position x non-virtual category) and validates every generated program's report against Accept (TraceArgs.tla); programs compiled through the macro front end",
-                text="All 630 scenarios are generated, compiled with g++ (thorough: also clang++ and -O2) and run: inside the definition the virtual parameter must designate the D sub-object of the caller's object (self-identifying sub-objects; single, second-base, virtual-base and two-level inheritance), keep shared ownership, and the neighbouring non-virtual argument must be the same referent / value with 0 copies for references and rvalues and exactly the call-site copy for lvalues passed by value; move-only by-value parameters must compile; the return value must come back unchanged.",
+    "C11": dict(ref="6/C11", tech="TLC enumerates the program family of Args.tla (810 scenarios: parameter kind x inheritance shape x position x non-virtual category) and validates every generated program's report against Accept (TraceArgs.tla); programs compiled through the macro front end",
+                text="All 810 scenarios (parameter kinds incl. const virtual_ptr& and const virtual_shared_ptr&) are generated, compiled with g++ (thorough: also clang++ and -O2) and run: inside the definition the virtual parameter must designate the D sub-object of the caller's object (self-identifying sub-objects; single, second-base, virtual-base and two-level inheritance), keep shared ownership, and the neighbouring non-virtual argument must be the same referent / value with 0 copies for references and rvalues and exactly the call-site copy for lvalues passed by value; move-only by-value parameters must compile; the return value must come back unchanged.",
                 note="the compiler's object model is the reference for the right address; the specification contributes the exhaustive enumeration and the acceptance condition; by-value move counts are recorded, not gated"),
     "C12": dict(ref="6/C12", tech="TLC on Offsets.tla (layout of slots_strides vs. the emitter's and the consistency check's indexing, arity 1..6, interleaved-reading negative control) + real generator output parsed and validated by TLC against the installed layout; methods compiled with mutable static_offsets<> dispatch through the static path and are validated like C01",
                 text="For random registries with methods of arity 1..4 (shapes with non-virtual and virtual_ptr parameters) under 9 policies: the numbers written by write_static_offsets must equal the installed slots and strides position by position; loaded into static_offsets<> they must give the oracle's outcome tables; under checked policies each single perturbed number must be reported (static slot / stride error) on every call; repeated after a second update.",
                 note="the generated header is emulated by specialisations with mutable arrays filled with the parsed numbers; compiling the emitted text is not part of this check"),
     "C13": dict(ref="6/C13", tech="TLC on Decode.tla (two-cursor model of the in-place decoder over the emitted layout; pre-repair variant as negative control) + real encode_dispatch_data output parsed, laid out exactly as declared and decoded by the real decoder with hook H4; fetch/store offsets and all post-decode outcome tables validated by TLC",
                 text="Random registries (v-tables not starting at slot 0, classes without entries, classes registered by several statements, uni- and multi-methods with error cells) under the three std-rtti policies: the emitted declaration must have non-negative sizes and no excess initialisers; every decoder fetch must lie in the encoded v-tables, every store in the decoded arrays, no store may overwrite a word fetched later; after decoding in a process where update never ran, every outcome table, error record and next slot must equal the oracle. Thorough repeats under AddressSanitizer with exact-size heap blocks.",
-                note="std-rtti policies only (the encoder demangles type_info names); the emitted text is parsed by the harness, not compiled"),
+                note="std-rtti policies only (the encoder demangles type_info names); the emitted text is parsed by the harness; a sample of emitted texts is also compiled with g++ and clang++ (-fsyntax-only)"),
     "C16": dict(ref="6/C16", tech="TLC on Concurrency.tla (callers reading the dispatch path cell by cell while an updater writes another policy's cells: NoRace, SequentialAnswer; same-policy updater as negative control) + multi-threaded executions under ThreadSanitizer whose per-thread observations are validated by TLC against the sequential specification",
                 text="8 threads (thorough 14) x 20,000 (60,000) seeded dispatches through resolve / operator() / virtual_ptr create-copy-use on three policies while a fourth policy is updated ~1,000 times concurrently; every distinct observation must equal the sequential oracle, the policies' statics must be unchanged after the concurrent phase, and ThreadSanitizer must report nothing; a negative control with the updater on a used policy must be reported and rejected.",
                 note="data-race freedom itself is established by ThreadSanitizer as recorder, not by TLC"),
@@ -63,7 +63,7 @@ CHECKS = {
                 text="192 TLC-emitted scenarios (thorough: all 588) plus random ones with 1-3 lists of up to 4 of 5 classes, each compiled into real programs using use_definitions / product / not_defined, plus products of 513 elements (thorough: 500, 512, 513, 600; also clang++): product<> must enumerate the Cartesian product in order, the method's catalog must hold exactly the combinations not marked not_defined, each once, and every class tuple must dispatch accordingly.",
                 note="the compiler is the reference for template expansion; the specification contributes the family and the acceptance condition"),
     "C17": dict(ref="6/C17", tech="TLC trace validation of update reports against HasGap/HasAmbiguity over all and over concrete-only tuples (ReportOK in Yomm2.tla)",
-                text="Every registry of the bounded universes x assignments of abstract flags (all 2^N for N<=3; thorough: all) is updated and the returned report compared with an enumeration of all class tuples by the oracle; cells is compared with the number of multi-method cells the compiler object holds.",
+                text="Every registry of the bounded universes x assignments of abstract flags (all 2^N for N<=3; thorough: all) is updated and the returned report compared with an enumeration of all class tuples by the oracle; cells is compared with the number of multi-method cells the compiler object holds. Programs with real abstract classes (pure virtual destructors, is_abstract detected by the class registration templates) report through the macro front end and are validated the same way.",
                 note="iff-content of the report only (counts are not compared, the statement does not define them)"),
 }
 
